@@ -2,9 +2,18 @@ use crate::wal::config::{FsyncSchedule, USE_FD_BACKEND};
 use memmap2::MmapMut;
 use std::collections::HashMap;
 use std::fs::OpenOptions;
+#[cfg(not(walrus_verif))]
 use std::sync::atomic::{AtomicU64, Ordering};
+#[cfg(walrus_verif)]
+use crate::wal::verif::sync::atomic::{AtomicU64, Ordering};
+#[cfg(not(walrus_verif))]
 use std::sync::{Arc, OnceLock, RwLock};
+#[cfg(walrus_verif)]
+use crate::wal::verif::sync::{Arc, OnceLock, RwLock};
+#[cfg(not(walrus_verif))]
 use std::time::SystemTime;
+#[cfg(walrus_verif)]
+use crate::wal::verif::time::SystemTime;
 
 #[cfg(unix)]
 use std::os::unix::fs::OpenOptionsExt;
